@@ -294,8 +294,13 @@ pub fn run(ctx: &mut LaneCtx) {
         SubSpec {
             name: "live-stacks",
             cases: (640, 20_000),
-            rule: "generated targets with 1..24 parked/spinner/sleeper threads on custom stacks (1..64 pages, with/without guard page), sp at any in-page offset / in the guard page / in a hole below; crash context on the blamed thread; oracle = reference geometry over /proc/pid/maps + bytes from sp upward equal /proc/pid/mem; non-trivial = sp in guard/hole, in-page offset >= 2048, or limit triggered with >= 21 threads; distinct = hash of case",
-            strategy: crate::props::fid::case_strategy(24, 1).boxed(),
+            rule: "generated targets with 1..24 parked/spinner/sleeper threads on custom stacks (1..64 pages, with/without guard page), sp at any in-page offset / in the guard page / in a hole below, optionally one more thread whose stack lies in a file mapped as [rw][PROT_NONE][rw] (merged into one module; the readable run ends at the PROT_NONE page); crash context on the blamed thread; oracle = reference geometry over /proc/pid/maps + bytes from sp upward equal /proc/pid/mem; non-trivial = sp in guard/hole, in-page offset >= 2048, or limit triggered with >= 21 threads; distinct = hash of case",
+            strategy: (crate::props::fid::case_strategy(24, 1), proptest::option::weighted(0.3, (any::<u8>(), any::<bool>())))
+                .prop_map(|(mut c, fs)| {
+                    c.file_stack = fs;
+                    c
+                })
+                .boxed(),
             max_shrink_iters: 150,
             log_current: true,
         },
